@@ -12,6 +12,7 @@ import (
 	"time"
 
 	"github.com/mutagen-io/mutagen/pkg/multiplexing/ring"
+	"github.com/mutagen-io/mutagen/pkg/verif"
 )
 
 var (
@@ -622,6 +623,7 @@ func (m *Multiplexer) OpenStream(ctx context.Context) (*Stream, error) {
 	case <-m.closed:
 		return nil, ErrMultiplexerClosed
 	}
+	verif.Yield("multiplexing.open.sent")
 
 	// Wait for stream acceptance or rejection.
 	select {
@@ -685,6 +687,7 @@ func (m *Multiplexer) acceptOneStream(ctx context.Context) (*Stream, error) {
 	// immediately and the reader Goroutine will want to confirm establishment
 	// when processing those messages.
 	close(stream.established)
+	verif.Yield("multiplexing.accept.established")
 
 	// Write the accept message and queue it for transmission.
 	writeBuffer.encodeAcceptMessage(streamIdentifier, uint64(m.configuration.StreamReceiveWindow))
